@@ -1,12 +1,105 @@
-/- Driver family `parsers`: C05 — parser totality.  (stub: replace `family`) -/
+/- Driver family `parsers`: C05 — parser totality.  See harness/src/fam/parsers.rs for the protocol. -/
 import Driver.Common
+import MilaModel.Model.Parsers
 
 namespace Driver.Parsers
-open Mila
+open Mila Mila.BinArchive
+
+def joinComma (l : List String) : String := String.intercalate "," l
+
+/-- A decoded string is *clean* when the sub-codec decoded every byte (no U+FFFD emitted). -/
+def hasReplacement : Bytes → Bool
+  | 0xEF :: 0xBF :: 0xBD :: _ => true
+  | _ :: rest => hasReplacement rest
+  | [] => false
+
+def tainted : Bytes → Bool
+  | 0xFE :: 0xFF :: _ => true
+  | 0xFF :: 0xFE :: _ => true
+  | 0xEF :: 0xBB :: _ => true
+  | _ :: rest => tainted rest
+  | [] => false
+
+structure Dump where
+  clean : Bool
+  text : String
+  coarse : String
+
+def sortByAddr {α : Type} (l : List (Nat × α)) : List (Nat × α) := l.mergeSort (fun x y => x.1 ≤ y.1)
+
+def dumpBin (a : BinArchive) : Dump :=
+  let size := a.size
+  let text := sortByAddr (a.text.filter (fun p => p.1 + 4 ≤ size))
+  let ptr := sortByAddr (a.pointers.filter (fun p => p.1 + 4 ≤ size))
+  let labels := a.allLabels
+  let clean := text.all (fun p => !hasReplacement p.2) && labels.all (fun p => !hasReplacement p.2)
+  let t := joinComma (text.map (fun p => s!"{p.1}:{hexOfBytes p.2}"))
+  let pt := joinComma (ptr.map (fun p => s!"{p.1}:{p.2}"))
+  let lb := joinComma (labels.map (fun p => s!"{p.1}:{hexOfBytes p.2}"))
+  { clean := clean
+    text := s!"size={size} data={hexOfBytes a.data} text=[{t}] ptr=[{pt}] labels=[{lb}]"
+    coarse := s!"size={size} ntext={text.length} nptr={ptr.length} nlabels={labels.length}" }
+
+def classOf {α : Type} : Res α → String
+  | .ok _ => "ok" | .err _ => "err" | .panic => "panic"
+
+/-- Result of one entry point on one input: class, dump, re-serialisation class, sized requests. -/
+structure Outcome where
+  cls : String
+  dump : Option Dump
+  reser : String
+  requests : List Nat
+
+def runBin (e : Endian) (bytes : Bytes) : Outcome :=
+  match parse sjisSub e bytes with
+  | .ok a => { cls := "ok", dump := some (dumpBin a), reser := classOf (serialize sjisSub a),
+               requests := Parsers.binRequests e bytes }
+  | .err _ => { cls := "err", dump := none, reser := "-", requests := Parsers.binRequests e bytes }
+  | .panic => { cls := "panic", dump := none, reser := "-", requests := [] }
+
+def runEntry (entry : String) (bytes : Bytes) : Option Outcome :=
+  match entry with
+  | "binLE" => some (runBin .little bytes)
+  | "binBE" => some (runBin .big bytes)
+  | _ => none
+
+def bound (len : Nat) : Nat := 256 * len + 65536
+
+def render (o : Outcome) (taint : Bool) (len : Nat) : String :=
+  let req := match o.requests.filter (fun r => r > bound len) with
+    | [] => "ok"
+    | r :: _ => s!"BIG:{r}"
+  if o.cls == "panic" then s!"panic req={req} reser=-" else
+  match o.dump with
+  | none => s!"{o.cls} req={req} reser={o.reser}"
+  | some d =>
+    if d.clean && !taint then s!"{o.cls} req={req} reser={o.reser} clean {d.text}"
+    else
+      let rs := if o.reser == "panic" then "panic" else "np"
+      s!"{o.cls} req={req} reser={rs} dirty {d.coarse}"
+
+/-- The property judged on the implementation's line: never panic/abort, no oversized request,
+accepted values re-serialise without panicking. -/
+def oracle (impl : List String) : String :=
+  let cls := impl.getD 1 ""
+  if cls == "panic" then "FAIL the parser panicked"
+  else if cls == "abort" then "FAIL the process aborted (allocation failure / stack overflow)"
+  else if cls != "ok" && cls != "err" then s!"FAIL unexpected outcome {cls}"
+  else if (impl.getD 2 "").startsWith "req=BIG" then
+    s!"FAIL single allocation request {impl.getD 2 ""} exceeds 256*len+64KiB"
+  else if impl.getD 3 "" == "reser=panic" then "FAIL re-serialising the accepted value panicked"
+  else "ok"
 
 def family : Family where
   State := Unit
   init := ()
-  step := fun _ _ _ => ((), "unimplemented", "FAIL unimplemented")
+  step := fun _ c i =>
+    match c with
+    | [_, "parse", entry, h] =>
+      let bytes := hexOrBad h
+      match runEntry entry bytes with
+      | some o => ((), render o (tainted bytes) bytes.length, oracle i)
+      | none => ((), "unmodelled-entry", "FAIL unmodelled entry")
+    | _ => ((), "bad-case", "FAIL bad-case")
 
 end Driver.Parsers
